@@ -99,6 +99,7 @@ def gen_scenario(seed, length=30, sessions=("A", "B"), mboxes=("inbox", "b"),
 async def run_steps(d: MailDriver, steps, sessions=("A", "B")):
     w = d.w
     idle = set()
+    nstatus = 0
     for st in steps:
         op = st[0]
         if op == "create":
@@ -139,7 +140,9 @@ async def run_steps(d: MailDriver, steps, sessions=("A", "B")):
         elif op == "examine":
             await d.select(s, st[2], examine=True)
         elif op == "status":
-            await d.status(s, st[2])
+            # every other STATUS goes through LIST-STATUS (same aggregates, other code path)
+            nstatus += 1
+            await d.status(s, st[2], via_list=(nstatus % 2 == 0))
         elif op == "append":
             await d.append(s, st[2], flags=st[3], date=st[4])
         elif op == "store":
